@@ -572,7 +572,11 @@ func (r *runner) compare(qi int, q Query) *hx.Failure {
 			case q.Limit == 0 && !d.empty():
 				// a membership difference: reported below with its own diagnosis
 				sig = ""
-			case len(q.Order) > 1 && firstKeySame && (q.Limit > 0 || d.empty()) && ((okA && !okB) || !r.indexProvidesOrder(q)):
+			case len(q.Order) > 1 && firstKeySame && (q.Limit > 0 || d.empty()) &&
+				sortedByKeys(rowsA, q.Order, 1) && sortedByKeys(rowsB, q.Order, 1) &&
+				((okA && !okB) || !r.indexProvidesOrder(q) || q.ShowDeleted):
+				// (with showDeleted the planner keeps the order node since 2481332; rows that are in
+				// first-key order on both sides rule out the concatenation defect repaired there)
 				// the order node compares the first key only (ties keep their arrival order); it is
 				// in the plan of the twin without indexes, and of the indexed twin unless the index
 				// supplies the order
@@ -819,86 +823,104 @@ func entryValues(fd FieldDef, v any) int {
 		}
 		return len(distinct)
 	}
-	var leaves func(v any) int
-	leaves = func(v any) int {
+	if v == nil {
+		return 0
+	}
+	return len(jsonLeafKeys(v))
+}
+
+// jsonLeafKeys lists the distinct index keys a JSON value yields: one per leaf, where the
+// position of an array element is not part of the key (equal elements share one) and
+// containers inside arrays are not descended into.
+func jsonLeafKeys(v any) map[string]bool {
+	out := map[string]bool{}
+	var walk func(path string, v any)
+	walk = func(path string, v any) {
 		switch x := v.(type) {
 		case map[string]any:
-			n := 0
-			for _, e := range x {
-				n += leaves(e)
+			for k, e := range x {
+				walk(path+"/"+k, e)
 			}
-			return n
 		case []any:
-			n := 0
 			for _, e := range x {
 				switch e.(type) {
 				case map[string]any, []any:
 				default:
-					n++
+					out[path+"/[]="+hx.Canon(e)] = true
 				}
 			}
-			return n
+		default:
+			out[path+"="+hx.Canon(x)] = true
 		}
-		return 1
 	}
-	if v == nil {
-		return 0
-	}
-	return leaves(v)
+	walk("", v)
+	return out
 }
 
+// rowExplainer: a listed finding that accounts for a missing row when pred holds for it.
+type rowExplainer struct {
+	sig  string
+	pred func(row map[string]any) bool
+}
+
+// explainMissing attributes every missing row to a finding. Several findings may share one
+// query (e.g. a null JSON document and a non-string value under _nilike); the difference is
+// explained only if each row is. A signature that is not listed as known (e.g. one that has
+// been repaired) takes precedence in the answer, so that its return is reported.
 func (r *runner) explainMissing(q Query, missing []map[string]any, driving []*F) string {
-	every := func(pred func(row map[string]any) bool) bool {
-		for _, row := range missing {
-			if !pred(row) {
-				return false
-			}
-		}
-		return true
-	}
+	always := func(map[string]any) bool { return true }
+	var ex []rowExplainer
+	add := func(sig string, pred func(row map[string]any) bool) { ex = append(ex, rowExplainer{sig, pred}) }
+
+	// a document that went through a partial-document update not carrying every indexed field:
+	// its entries were rewritten from the partial document
+	add(sigPartialUpdate, func(row map[string]any) bool {
+		id, _ := row["_docID"].(string)
+		d := r.byID[id]
+		return d != nil && d.Partial
+	})
 	// an index with an array field holds no entry at all for a document whose array is null or
 	// empty: whatever the query, such documents cannot come out of that index
-	if afs := r.compositeArrayFields(q); len(afs) > 0 && every(func(row map[string]any) bool {
-		for _, fd := range afs {
-			if entryValues(fd, row[fd.selName()]) == 0 {
-				return true
+	if afs := r.compositeArrayFields(q); len(afs) > 0 {
+		add(sigCompositeArrayEmpty, func(row map[string]any) bool {
+			for _, fd := range afs {
+				if entryValues(fd, row[fd.selName()]) == 0 {
+					return true
+				}
 			}
-		}
-		return false
-	}) {
-		return sigCompositeArrayEmpty
+			return false
+		})
 	}
-	// a condition on the related document that also holds for "no related document" (_ne, _nin, ...):
-	// the join is inverted when an index exists and then starts from the related documents
-	relNe := false
+	// a condition on the related document with an index on either side of the relation
+	relCond := false
 	walkLeaves(q.Filter, false, func(l *F, underNot bool) {
-		relNe = relNe || (fdef(l.Field).Kind == "rel" && len(l.Path) > 0 && !underNot)
+		relCond = relCond || (fdef(l.Field).Kind == "rel" && len(l.Path) > 0 && !underNot)
 	})
 	ownerIndexed := r.c.UIndex
 	for i, ix := range r.c.Idx {
 		ownerIndexed = ownerIndexed || (r.exists[i] && ix.Fields[0].F == "owner")
 	}
-	if relNe && ownerIndexed {
-		return sigRelNe
+	if relCond && ownerIndexed {
+		add(sigRelNe, always)
 	}
 	chosen, hasChosen := r.chosenIndex(q)
-	// a JSON condition that "nothing there" satisfies on the scan path (h: {_eq: null}, _ne, _nin ...
-	// on a document without that path, or whose JSON value is null): the index looks under the
-	// path prefix, where such a document has no entry
-	if hasChosen && r.c.Idx[chosen].Fields[0].F == "j" && len(driving) > 0 && every(func(row map[string]any) bool {
-		if row["j"] == nil {
-			return true
-		}
-		for _, l := range driving {
-			if len(l.Path) > 0 {
-				if _, found := jsonAt(row["j"], l.Path); !found {
-					return true
+	// a JSON condition that "nothing there" satisfies on the scan path (h: {_eq: null}, _ne, _nin,
+	// _nlike ... on a document without that path, or whose JSON value is null): the index looks
+	// under the path prefix, where such a document has no entry
+	if hasChosen && r.c.Idx[chosen].Fields[0].F == "j" && len(driving) > 0 {
+		add(sigJSONNullDocMissing, func(row map[string]any) bool {
+			if row["j"] == nil {
+				return true
+			}
+			for _, l := range driving {
+				if len(l.Path) > 0 {
+					if _, found := jsonAt(row["j"], l.Path); !found {
+						return true
+					}
 				}
 			}
-		}
-		return false
-	}) {
-		return sigJSONNullDocMissing
+			return false
+		})
 	}
 	// _in with null on a unique index: the null is looked up as an exact key, but entries with a
 	// null field carry the docID in the key
@@ -911,18 +933,19 @@ func (r *runner) explainMissing(q Query, missing []map[string]any, driving []*F)
 			for _, v := range l.Vals {
 				hasNull = hasNull || v == "null"
 			}
-			if hasNull && every(func(row map[string]any) bool { return row[leafKey(l)] == nil }) {
-				return sigInNullUnique
+			if hasNull {
+				key := leafKey(l)
+				add(sigInNullUnique, func(row map[string]any) bool { return row[key] == nil })
 			}
 		}
 	}
-	// a condition on a field of the chosen index below a multi-branch _or: the index fetches only
-	// the rows of that one condition, the rows of the other branches are missing
 	if hasChosen {
 		inIndex := map[string]bool{}
 		for _, f := range r.c.Idx[chosen].Fields {
 			inIndex[fdef(f.F).selName()] = true
 		}
+		// a condition on a field of the chosen index below a multi-branch _or: the index fetches only
+		// the rows of that one condition, the rows of the other branches are missing
 		found := false
 		walkLeaves(q.Filter, false, func(l *F, underNot bool) {
 			if !underNot && inIndex[leafKey(l)] && underMultiOr(q.Filter, l, false) {
@@ -935,87 +958,77 @@ func (r *runner) explainMissing(q Query, missing []map[string]any, driving []*F)
 			}
 		})
 		if found {
-			return sigOrBranch
+			add(sigOrBranch, always)
 		}
 		// a range operator with a null operand on an index field: the index matcher reads it as
 		// "is not null", the scan path lets null satisfy _le / _ge null
-		nullRange := ""
 		walkLeaves(q.Filter, false, func(l *F, underNot bool) {
 			if underNot || !inIndex[leafKey(l)] {
 				return
 			}
 			for _, c := range [][2]string{{l.Cmp, l.Val}, {l.Cmp2, l.Val2}} {
 				if (c[0] == "_le" || c[0] == "_ge" || c[0] == "_lt" || c[0] == "_gt") && c[1] == "null" {
-					nullRange = leafKey(l)
+					key := leafKey(l)
+					add(sigRangeNullOperand, func(row map[string]any) bool { return row[key] == nil })
 				}
 			}
 		})
-		if nullRange != "" && every(func(row map[string]any) bool { return row[nullRange] == nil }) {
-			return sigRangeNullOperand
-		}
 	}
 	for _, l := range driving {
+		l := l
 		fd := fdef(l.Field)
 		sel := fd.selName()
 		// _all on an indexed array: rows with an empty array satisfy _all vacuously on the scan
 		// path but have no index entries
-		if l.Arr == "_all" && every(func(row map[string]any) bool {
-			v := row[sel]
-			if fd.Kind == "json" {
-				v, _ = jsonAt(v, l.Path)
-			}
-			arr, ok := v.([]any)
-			return ok && len(arr) == 0
-		}) {
-			return sigAllEmptyArray
+		if l.Arr == "_all" {
+			add(sigAllEmptyArray, func(row map[string]any) bool {
+				v := row[sel]
+				if fd.Kind == "json" {
+					v, _ = jsonAt(v, l.Path)
+				}
+				arr, ok := v.([]any)
+				return ok && len(arr) == 0
+			})
 		}
 		// _ilike with a pattern x%y: the index lowers the value but splits the pattern before
 		// lowering it, so the two halves keep their case
 		if l.Cmp == "_ilike" && l.Arr == "" && len(l.Path) == 0 {
 			pat, _ := r.resolve(l.Val).(string)
 			if i := strings.Index(pat, "%"); i > 0 && i < len(pat)-1 && pat != strings.ToLower(pat) {
-				return sigIlikeInfixCase
+				add(sigIlikeInfixCase, always)
 			}
 		}
+		negLike := l.Cmp == "_nlike" || l.Cmp == "_nilike"
 		// _nlike / _nilike on an indexed string: rows whose value is null
-		if (l.Cmp == "_nlike" || l.Cmp == "_nilike") && l.Arr == "" && fd.Kind != "json" &&
-			every(func(row map[string]any) bool { return row[sel] == nil }) {
-			return sigNlikeNull
+		if negLike && l.Arr == "" && fd.Kind != "json" {
+			add(sigNlikeNull, func(row map[string]any) bool { return row[sel] == nil })
 		}
-		// JSON conditions evaluated against index leaves instead of the value the filter names:
-		//  - a condition on the JSON value itself (no path) other than equality is matched against
-		//    every leaf at any path: a document whose root is an object/array comes out only if
-		//    one of its leaves happens to match;
-		//  - _nlike / _nilike: the like matcher answers "no match" for any leaf that is not a
-		//    string, whatever the negation, so documents holding a non-string value there are dropped.
+		// JSON conditions evaluated against index leaves instead of the value the filter names
 		if fd.Kind == "json" && l.Arr == "" {
-			negLike := l.Cmp == "_nlike" || l.Cmp == "_nilike"
-			rootOther := len(l.Path) == 0 && l.Cmp != "_eq" && l.Cmp != "_in"
-			anyContainer := false
-			if (negLike || rootOther) && every(func(row map[string]any) bool {
-				v, found := jsonAt(row["j"], l.Path)
-				if !found || row["j"] == nil {
-					return false
-				}
-				switch v.(type) {
-				case map[string]any, []any:
-					anyContainer = true
-					return rootOther
-				case string:
-					return rootOther
-				}
-				// a scalar root: the operand of a root condition is encoded as a plain scalar, not
-				// as a JSON value, so range bounds and matchers do not line up with the entries
-				return negLike || rootOther
-			}) {
-				if anyContainer || !negLike {
-					return sigJSONRootOnLeaves
-				}
-				return sigJSONNlikeNonString
+			// a condition on the JSON value itself (no path) other than equality: the operand is
+			// encoded as a plain scalar and matched against every leaf at any path
+			if len(l.Path) == 0 && l.Cmp != "_eq" && l.Cmp != "_in" {
+				add(sigJSONRootOnLeaves, func(row map[string]any) bool { return row["j"] != nil })
+			}
+			// _nlike / _nilike: the like matcher answers "no match" for any leaf that is not a string,
+			// whatever the negation, so documents holding a non-string scalar there are dropped
+			if negLike {
+				add(sigJSONNlikeNonString, func(row map[string]any) bool {
+					v, found := jsonAt(row["j"], l.Path)
+					if !found || row["j"] == nil {
+						return false
+					}
+					switch v.(type) {
+					case map[string]any, []any, string:
+						return false
+					}
+					return true
+				})
 			}
 		}
 	}
-	return ""
+
+	return attribute(missing, ex)
 }
 
 // explainExtra: rows the filter excludes can only come out when the filter is not applied:
@@ -1037,6 +1050,30 @@ func (r *runner) explainExtra(q Query, extra []map[string]any) string {
 }
 
 func (r *runner) explainDuplicated(q Query, dup []map[string]any, driving []*F) string {
+	always := func(map[string]any) bool { return true }
+	var ex []rowExplainer
+	// a composite index with an array or JSON field read without a usable condition on its first
+	// field (none at all, or only below _or / _not, which the index does not use): it is walked in
+	// index order without the de-duplicating iterator, one row per entry
+	firstFieldCondition := false
+	if i, ok := r.chosenIndex(q); ok {
+		first := fdef(r.c.Idx[i].Fields[0].F).selName()
+		walkLeaves(q.Filter, false, func(l *F, underNot bool) {
+			if leafKey(l) == first && !underNot && !underMultiOr(q.Filter, l, false) {
+				firstFieldCondition = true
+			}
+		})
+	}
+	if afs := r.compositeArrayFields(q); len(afs) > 0 && !firstFieldCondition {
+		ex = append(ex, rowExplainer{sigCompositeArrayDup, func(row map[string]any) bool {
+			for _, fd := range afs {
+				if entryValues(fd, row[fd.selName()]) > 1 {
+					return true
+				}
+			}
+			return false
+		}})
+	}
 	// _in with a repeated list element: the row comes back once per repetition
 	inDup := false
 	walkLeaves(q.Filter, false, func(l *F, underNot bool) {
@@ -1051,36 +1088,39 @@ func (r *runner) explainDuplicated(q Query, dup []map[string]any, driving []*F) 
 		}
 	})
 	if inDup {
-		return sigInDuplicates
+		ex = append(ex, rowExplainer{sigInDuplicates, always})
 	}
-	// a composite index with an array field read without any condition (order only): one row per entry
-	// (no condition: none at all, or only below _or / _not, which the index does not use)
-	conjunctive := false
-	if i, ok := r.chosenIndex(q); ok {
-		inIndex := map[string]bool{}
-		for _, f := range r.c.Idx[i].Fields {
-			inIndex[fdef(f.F).selName()] = true
-		}
-		walkLeaves(q.Filter, false, func(l *F, underNot bool) {
-			if inIndex[leafKey(l)] && !underNot && !underMultiOr(q.Filter, l, false) {
-				conjunctive = true
+	return attribute(dup, ex)
+}
+
+// attribute assigns every row to a finding: to a listed (known) one if one accounts for it, else
+// to an unlisted one (e.g. a repaired defect coming back, which is then reported). It returns ""
+// if some row has no explanation.
+func attribute(rows []map[string]any, ex []rowExplainer) string {
+	var first, unlisted string
+	for _, row := range rows {
+		sig := ""
+		for _, wantKnown := range []bool{true, false} {
+			for _, e := range ex {
+				if sig == "" && rec.IsKnown(e.sig) == wantKnown && e.pred(row) {
+					sig = e.sig
+				}
 			}
-		})
-	}
-	if afs := r.compositeArrayFields(q); len(afs) > 0 && !conjunctive {
-		all := true
-		for _, row := range dup {
-			some := false
-			for _, fd := range afs {
-				some = some || entryValues(fd, row[fd.selName()]) > 1
-			}
-			all = all && some
 		}
-		if all {
-			return sigCompositeArrayDup
+		if sig == "" {
+			return ""
+		}
+		if !rec.IsKnown(sig) {
+			unlisted = sig
+		}
+		if first == "" {
+			first = sig
 		}
 	}
-	return ""
+	if unlisted != "" {
+		return unlisted
+	}
+	return first
 }
 
 // diagnoseScanError: a JSON path condition errors on the scan path when some document's
